@@ -168,8 +168,9 @@ def _mutation(h, ctx, name):
     """one symbolic mutation; returns False when the drawn operation is not admissible"""
     ref = h.ref
     kind = ctx.params["kinds"][int(name[1:])] if ctx.params.get("kinds") else ctx.choice(name + "_kind", 5)
-    x = NODES[ctx.params["x0"]] if (name == "m0" and ctx.params.get("x0") is not None) else NODES[ctx.choice(name + "_x", 4)]
-    y = NODES[ctx.choice(name + "_y", 4)]
+    # operands are drawn only where the operation uses them (no duplicate histories)
+    x = "world" if kind == 4 else (NODES[ctx.params["x0"]] if (name == "m0" and ctx.params.get("x0") is not None) else NODES[ctx.choice(name + "_x", 4)])
+    y = NODES[ctx.choice(name + "_y", 4)] if kind == 1 else "world"
     if kind == 0:  # update an existing edge in place
         if x not in ref.parent:
             return False
@@ -281,7 +282,7 @@ def units(tier):
         for sweep0 in ((0, 1) if not T else (0, 1, -1)):
             for k1 in range(5):
                 combos = [(k1,)] if not T else [(k1, k2) for k2 in range(5)]
-                for kinds, x0 in [(c, x0) for c in combos for x0 in ((1, 2, 3) if (k1 == 0 and sweep0) else (None,))]:
+                for kinds, x0 in [(c, x0) for c in combos for x0 in ((1, 2, 3) if k1 in (0, 1, 2) else ((0, 1, 2, 3) if k1 == 3 else (None,)))]:
                     nm = "+".join(KINDS[k] for k in kinds) + ("" if x0 is None else "-" + NODES[x0])
                     u = Unit("history-shape%d-sweep%d-%s" % (shape, sweep0, nm), u_history, params={"shape": shape, "sweep0": sweep0, "steps": len(kinds), "kinds": kinds, "x0": x0}, key="history", functions=FUNCS,
                              bounds="4 frames; initial forest shape %d; %s query sweep before; mutation(s) %s with symbolic operands, symbolic sweep choice between; full sweep, edge-list rebuild after" % (shape, {0: "no", 1: "forward", -1: "reversed"}[sweep0], nm),
